@@ -5,6 +5,8 @@ from vlib import xhex, rnd_u64
 from props.codec_common import CODEC_TRUSTED
 
 THEOREMS = ["C07_validate_iff", "C07_rejects_nonempty", "C07_decoded_shape", "C07_on_decoded", "C07_tie_block_flags", "C07_tie_bundle_flags", "C07_tie_rule_space", "C07_validate_iff_any", "C07_decodable_typed"]
+REPEAT = 2            # case lines repeated 66 000 times on one thread (state that builds up over many calls)
+REPEAT_CMDS = ('VALIDATE',)
 RELEASE = True          # debug and release builds of the harness (debug_assert!, overflow checks, cfg(debug_assertions))
 RULE = ("VALIDATE x<bytes>: bytes of the Python reference encoder for bundles drawn from the property's rule space (any subset of "
         "the nine defined control flags and the six bits of the reserved mask, creation time zero/non-zero, anonymous/named source, "
